@@ -11,10 +11,14 @@ import (
 func init() { table["C05"] = c05 }
 
 func enumCheck(id, tier string, quick, thorough time.Duration, plans []enum.Plan, rule string, assumptions []string) int {
+	return enumCheckLevel(id, "model_checking", tier, quick, thorough, plans, rule, assumptions)
+}
+
+func enumCheckLevel(id, level, tier string, quick, thorough time.Duration, plans []enum.Plan, rule string, assumptions []string) int {
 	budget := hk.NewBudget(dur(tier, quick, thorough))
 	rp := hk.NewReporter(id)
 	sum := enum.RunPlans(rp, plans, budget, verbose())
-	ev := &hk.Evidence{PropertyID: id, Tier: tier, Level: "model_checking", Coverage: sum.Coverage(rule), Assumptions: assumptions}
+	ev := &hk.Evidence{PropertyID: id, Tier: tier, Level: level, Coverage: sum.Coverage(rule), Assumptions: assumptions}
 	return finish(rp, ev, budget)
 }
 
